@@ -32,6 +32,8 @@ struct C18 : drv::Harness
 		for (int i = 0; i < q; ++i)
 		{
 			// begin/end selectors: 0 = 1, 1 = first stored, 2 = inside a gap, 3 = last stored, 4 = latest, 5 = random, 6 = zero (E: to the latest; B: invalid)
+			// a request that begins beyond the latest number sent (unusual; its own answer is not judged) must not spoil later requests
+			if (rng.chance(0.12)) { p.ops.push_back(Op("prr", { 7, rng.pick(std::vector<int64_t>{ 6, 7 }), (int64_t)(rng.next() >> 3), 0 })); if (rng.chance(0.5)) p.ops.push_back(Op("app")); }
 			p.ops.push_back(Op("prr", { rng.pick(std::vector<int64_t>{ 0, 1, 2, 3, 4, 5, 5, 5 }), rng.pick(std::vector<int64_t>{ 6, 6, 1, 2, 3, 4, 5, 5 }), (int64_t)(rng.next() >> 3), rng.chance(0.05) }));
 			if (rng.chance(0.8)) p.ops.push_back(Op("app"));
 			if (rng.chance(0.3)) p.ops.push_back(Op("ptest"));
@@ -88,9 +90,9 @@ struct C18 : drv::Harness
 					case 3: return stored.empty() ? latest : stored.back();
 					case 4: return latest;
 					case 6: return 0;
+					case 7: return latest + 1 + (long)pr.below(3) + (is_end ? 3 : 0);
 					default: return 1 + (long)pr.below((uint64_t)latest);
 					}
-					(void)is_end;
 				};
 				long B = pick(op.arg(0), false), E = pick(op.arg(1), true);
 				bool invalid = op.arg(3) != 0;
@@ -101,6 +103,7 @@ struct C18 : drv::Harness
 				sim::trace("REQUEST resend " + std::to_string(B) + ".." + std::to_string(E) + " latest=" + std::to_string(latest));
 				w.peer.send_msg("2", { {7, std::to_string(B)}, {16, std::to_string(E)} });
 				w.settle();
+				if (!invalid && B > latest) { sim::count("request_beyond_latest"); scan_new(); continue; }   // numbers never sent: the answer is not judged
 				std::string ctx = "ResendRequest(" + std::to_string(B) + "," + std::to_string(E) + ") with latest=" + std::to_string(latest) + " stored={";
 				for (long s : stored) ctx += std::to_string(s) + " "; ctx += "}: ";
 				// the answer = PossDup / GapFill messages written since the request (a heartbeat from the timer may be interleaved)
